@@ -47,6 +47,8 @@ SHAPES = [
     ("notfound/later-stage-after-infinite-producer", "yes | nonexistent_cmd_xyz", FORMS),
     ("notfound/middle", "tagger 0 | nonexistent_cmd_xyz | tagger 2 in", FORMS),
     ("noexec/permission-denied", "./noexec", FORMS),
+    ("launch-error/nul-byte-in-environment", "$VNUL='a\\x00b' exitn 0 t", FORMS),
+    ("launch-error/nul-byte-in-environment-later-stage", "tagger 0 | $VNUL='a\\x00b' exitn 0 t", FORMS),
     ("noexec/later-stage", "tagger 0 | ./noexec", FORMS),
     ("alias-raises/only", "aexc", FORMS),
     ("alias-raises/first", "aexc | tagger 1 in", FORMS),
@@ -103,7 +105,7 @@ class C09:
     level = "exploration"
     tables = True
     rule = (
-        "cases = (command shape from a 61-entry table of outcome classes: success, exit status, command not found / not executable at each position, exception and SystemExit inside aliases at each position, "
+        "cases = (command shape from a 63-entry table of outcome classes: success, exit status, command not found / not executable / not launchable (ValueError from Popen) at each position, exception and SystemExit inside aliases at each position, "
         "early-exit consumer under an infinite or large producer, missing redirect target / input at each stage, conflicting redirects, unthreadable alias in a pipeline, background jobs, SIGINT delivered mid-command, "
         "captures nested inside aliases) x capture form {bare, ![], $[], $(), !(), @$()} x repetitions; judged = equality of the resource sample (fds+targets, children+state, threads, cwd, sys.std* identity/closed, "
         "detyped env, unfinished jobs, SIGINT effect, liveness probe) taken after 2 warm-up executions and after N more; distinct_nontrivial = distinct (shape, form, repetitions)"
